@@ -10,6 +10,10 @@ ENGINES = [
      "kind_free_text": "mmap arenas with PROT_NONE pages before and after; SetPanicOnFault turns a stray access by Go or assembly into a recoverable panic with Addr()"},
 ]
 NOT_APPLICABLE_REASONS = {}
+ENGINES.append({"name": "asmtaint", "path": "/verif/tools/asmtaint.py + /verif/tools/asmtrace.py + /verif/tools/gdbtrace.py", "serves_properties": ["C09"],
+     "kind_free_text": "explicit-state exploration of an abstract taint machine whose program is the assembler's own listing (`go tool asm -S`) of every .s file of the current tree, for amd64 and arm64; concrete gdb single-step traces of the amd64 routines are replayed against the model CFG and compared across two fillings of all secret inputs"})
+ENGINES.append({"name": "sched", "path": "/verif/harness/sched + /verif/harness/shim + /verif/harness/cmd/vxinstr", "serves_properties": ["C17"],
+     "kind_free_text": "cooperative controlled scheduler with stateless preemption-bounded DFS over schedules, vector-clock happens-before race monitor, write-footprint monitor for shared regions and package-level variables, sync/atomic shims, source-to-source instrumenter (textual insertion) with a frozen-variable reduction; separate free-running -race pass"})
 TEXT = {}
 
 def T(pid, technique, level_text, level_note, engine="xplore"):
@@ -66,3 +70,10 @@ T("C19", "fault enumeration: every position and kind of the first randomness fai
 T("C20", "exhaustive enumeration of finite input spaces (complete for l=1 and n=17; shape-complete pattern sweep for 256-bit inputs)",
   "The complete 2^16 input space for 1-byte comparison and for 16-bit recoding at every window width; for 256-bit inputs every 8-bit (quick) / 16-bit (thorough) pattern at every bit offset on all-zero and all-one backgrounds, which covers every byte-boundary carry and window alignment the code distinguishes.",
   "Trusted: bytes.Compare, math/big (cross-check of the limb accumulator). 256-bit inputs outside the pattern alphabets are not covered.")
+
+T("C09", "explicit-state model checking of a taint abstraction of the assembly (model = assembler listing of the current tree), with concrete trace replay against the model",
+  "All reachable (pc, taint-vector) states of every assembly routine (amd64 and arm64) are enumerated; a state with a conditional branch on tainted flags, a tainted base/index register, a gather or a division on tainted data is a violation (one verdict branch site allowed in openAsm). This covers every control-flow path for all input lengths and all key/data values at once, which no execution-based test can. The model is regenerated from the tree on every run, and on amd64 34+ concrete single-step traces (all routines, several length classes, two fillings of every secret) must be paths of the model CFG and must have identical PC and effective-address sequences.",
+  "Trusted: go tool asm listing, gdb stepping/disassembly, the taint transfer rules (unknown mnemonics default to 'last operand written from all others'). arm64 cannot be executed here (model explored, not replayed). Not a timing measurement.", engine="asmtaint")
+T("C17", "stateless model checking of thread schedules on the real code under a controlled scheduler (preemption-bounded DFS) with happens-before and write-footprint monitors",
+  "Small scenarios forced to collide (two Opens of one ciphertext buffer, Seal/Open/Seal on one AEAD, three goroutines on one Block, first-use constructors, concurrent SignHashed/VerifyHashed/DerivePublic on shared key and digest buffers, ZA/SignZa/Sign/GenerateKey next to independent hashes) are executed under every schedule with at most 2 (thorough: 3) preemptions; each call must return what it returns alone, shared inputs must stay bit-identical, no happens-before race and no unmodelled write to package-level state may occur. Schedules are replayed twice for determinism. A separate free-running pass under the Go race detector covers Go-level accesses the instrumenter might not classify.",
+  "Trusted: the instrumenter's frozen-variable analysis (a frozen variable that changes anyway is reported), sequential consistency, atomicity of one assembly call for scheduling (its memory effect is captured by the footprint monitor). Bounds: 2-3 threads, 1-2 ops each, preemption bound 2/3.", engine="sched")
